@@ -26,7 +26,7 @@ RULE = (
     'left with an open block); a foreign @end at the clause indent; property lines directly inside clauses; '
     'ragged clause bodies. Round 8: conditions that hold none; a nested block inside every clause of a block '
     'under all truth assignments. Round 9: nested conditions that refer to a node defined in the enclosing clause '
-    'only (the text stays valid when that clause is not selected). Distinct = distinct rendered text.'
+    'only (the text stays valid when that clause is not selected). Round 10: the same condition text evaluated repeatedly with re-assignments only (no definition) in between. Distinct = distinct rendered text.'
 )
 ASSUMPTIONS = [
     "conditions inside clauses only refer to nodes defined at the root before the first block",
